@@ -409,6 +409,10 @@ func TestVerifDecodeSearch(t *testing.T) {
 					msg = fmt.Sprintf("C12: object=%v and error=%v", obj, err)
 				case (err == nil) != wf:
 					msg = fmt.Sprintf("C08: accepted=%v but canonical=%v (defects %v)", err == nil, wf, defects)
+					if err == nil && enc != s && !vrSeenTag["C10"] {
+						vrSeenTag["C10"] = true
+						fmt.Printf("SEARCH-HIT decoder=%s input=%q : C10: the input is accepted but Encode()=%q is not byte-identical to it\n", d.name, s, enc)
+					}
 				case err != nil:
 					ms := vrMatch(err)
 					if len(ms) != 1 {
